@@ -4,7 +4,7 @@ Falsifier: ranges + rebuild on the real functions, and lui+addi / lui+lw / auipc
 real assembler from literals, constants, labels and %position, decoded by the Spec."""
 import harness
 
-GEN_UNITS = ['Encoders']
+GEN_UNITS = ['Encoders', 'Guards']
 ASSUMPTIONS = ['values reach relocate_hi/lo as Python ints (any size); the theorem covers every Z']
 
 UPPER_QUICK = [0, 1, 0x7ffff, 0x80000, 0xfffff, -1]
